@@ -364,6 +364,9 @@ func run(cfg workerCfg, noEvidence bool) int {
 		// GOMEMLIMIT: a soft ceiling, so that one transient multi-gigabyte result does not raise the collector's target
 		// to five times that for the rest of the run
 		cmd.Env = append(os.Environ(), "GOMAXPROCS=1", "GOGC=400", "GOMEMLIMIT=1GiB")
+		if os.Getenv("VERIF_FAST") != "" {
+			cmd.Env = append(cmd.Env, "VERIF_FAST_FILE="+filepath.Join(cfg.Scratch, "stop-now"))
+		}
 		if err := cmd.Start(); err != nil {
 			die2("start worker: %v", err)
 		}
